@@ -45,6 +45,8 @@ More information:
 {'01': '38425876095074'}
 >>> validate('(17)181119(01)38425876095074(37)1')
 '013842587609507417181119371'
+>>> encode({'4331': '002500-'})  # temperature with the optional minus sign
+'4331002500-'
 >>> validate('(10)~(17)181119', separator='~')  # empty value
 Traceback (most recent call last):
     ...
@@ -132,7 +134,10 @@ def _encode_value(fmt, _type, value):
 
 def _max_length(fmt, _type):
     """Determine the maximum length based on the format ad type."""
-    length = sum(int(re.match(r'^[NXY][0-9]*?[.]*([0-9]+)[\[\]]?$', x).group(1)) for x in fmt.split('+'))
+    length = sum(
+        1 if x == '[-]'  # optional minus sign
+        else int(re.match(r'^[NXYZ][0-9]*?[.]*([0-9]+)[\[\]]?$', x).group(1))
+        for x in fmt.split('+'))
     if _type == 'decimal':
         length += 1
     return length
